@@ -29,6 +29,33 @@ import ScionTime.Gen.Client
 namespace ScionTime.Props.C05Tail
 open ScionTime.Time64 ScionTime.NtpMath ScionTime.ClientNtp ScionTime.ClientFlow ScionTime.ClientTail
 
+/-! ### regenerated facts (harness/extract/x_c03c05c11c13tail.go) -/
+
+/-- the order `tail` is written in: prev update, filter, histogram — in both clients -/
+theorem C05T_pin_tail_order :
+    Gen.Client.clientTailOrderIP = "prev,filter,histogram" ∧ Gen.Client.clientTailOrderSCION = "prev,filter,histogram" ∧
+    Gen.Client.clientHistogramArgIP = "rtd.Microseconds()" ∧ Gen.Client.clientHistogramArgSCION = "rtd.Microseconds()" := by
+  decide
+
+/-- `poolLoop` stores before it looks at the origin: `nts.ProcessResponse` precedes the origin check -/
+theorem C11T_pin_nts_before_origin :
+    Gen.Client.clientNtsBeforeOriginIP = true ∧ Gen.Client.clientNtsBeforeOriginSCION = true := by
+  decide
+
+/-- No `RecyclePaths()` in core/client: a received SCION header is decoded with
+    `path.NewPath(type)` under strict decoding, an unregistered path type is a decoding error
+    (`.skip .layers`), and the four registered types (empty, SCION, one-hop, EPIC) are the four
+    `spao.ComputeAuthCMAC` serialises — so the `panic(err)` behind the client's MAC computation
+    over a received packet is not reachable from network input (`C05_scion_panic_only_from_timestamps`
+    rests on this; the listener's F4e was a `RecyclePaths()` call). Harness c03 (`c05spao`) sends
+    authenticated-looking packets under every path type 0..255. -/
+theorem C08T_pin_no_recycle_paths : Gen.Client.clientRecyclePathsCalls = 0 := by decide
+
+/-- the statements `mkScionRequestHeader` mirrors, in source order -/
+theorem C05T_pin_header_sets :
+    Gen.Client.clientScionHeaderSets =
+      "scionLayer.TrafficClass=c.DSCP << 2 | scionLayer.SrcIA=localAddr.IA | scionLayer.SetSrcAddr(addr.HostIP(srcAddrIP.Unmap())) | scionLayer.DstIA=remoteAddr.IA | scionLayer.SetDstAddr(addr.HostIP(dstAddrIP.Unmap())) | path.Dataplane().SetPath(&scionLayer) | scionLayer.NextHdr=slayers.L4UDP | udpLayer.SrcPort=uint16(localPort) | udpLayer.DstPort=uint16(remoteAddr.Host.Port) | scionLayer.NextHdr=slayers.End2EndClass" := rfl
+
 /-! ### (h) histogram -/
 
 theorem tail_prev (cfg : Cfg) (hist : Option Hist) (filter : Option (Int → Int → Int → Int → Int64))
